@@ -44,8 +44,8 @@ Inductive delta := DScalar (d : Qc) | DPerVar (ds : list (var * Qc)).
 
 (* faithful-to-the-code switches for two PROPOSED repairs (proposed_fixes/C18-pervar-delta.diff and
    C18-subset-scalar-variables.diff); flip to true when the patch is applied *)
-Definition code_pervar_delta_rescaled : bool := false.
-Definition code_subset_scalar_paths : bool := false.
+Definition code_pervar_delta_rescaled : bool := true.
+Definition code_subset_scalar_paths : bool := true.
 
 Section EP.
   Variable G : Type.
